@@ -265,7 +265,10 @@ type c12sWorld struct {
 		t          uint64
 		start, end int
 	}
-	gcs        []struct{ tick uint64; start, end int }
+	gcs []struct {
+		tick       uint64
+		start, end int
+	}
 	closeStart int
 	closeEnd   int
 	fresh      int
@@ -544,7 +547,10 @@ func (w *c12sWorld) stepperBody(prog []string) func() {
 				w.pcc.tick(t)
 				w.mu.Lock()
 				w.ticks[ti].end = w.seq()
-				w.gcs = append(w.gcs, struct{ tick uint64; start, end int }{t, w.seq(), 0})
+				w.gcs = append(w.gcs, struct {
+					tick       uint64
+					start, end int
+				}{t, w.seq(), 0})
 				gi := len(w.gcs) - 1
 				w.mu.Unlock()
 				w.pp.gc()
@@ -1185,33 +1191,71 @@ func TestVerifC12SSched(t *testing.T) {
 	outcomes := map[string]struct{}{}
 	minimal := map[string]int{} // key -> fewest preemptions/points seen
 	var tot vsched.Stats
-	for si := range scs {
-		sc := &scs[si]
-		if f := os.Getenv("VERIF_SCENARIO"); f != "" && !strings.Contains(sc.Name, f) {
-			continue
+	// pass 1: every scenario to the quick bound (2). Thorough adds pass 2:
+	// bound 3, smallest scenarios first, until the deadline; schedules with
+	// <= 2 preemptions are then only re-executed to reach their children and
+	// not judged / counted a second time.
+	passes := []int{2}
+	if bound > 2 {
+		passes = append(passes, bound)
+	}
+	for pi, pb := range passes {
+		order := make([]int, len(scs))
+		for i := range order {
+			order[i] = i
 		}
-		if run.Expired() {
-			res.Cap("deadline reached before scenario " + sc.Name)
-			break
-		}
-		var w *c12sWorld
-		if os.Getenv("VERIF_DEBUG") != "" {
-			fmt.Fprintln(os.Stderr, "scenario", si, sc.Name)
-		}
-		salt := verifkit.Hash64(sc.Name)
-		func() {
-			defer func() {
-				if rec := recover(); rec != nil {
-					panic(fmt.Sprintf("scenario %q: %v", sc.Name, rec))
+		if pi > 0 {
+			size := func(sc *c12sScenario) int {
+				n := len(sc.Stepper) + len(sc.Committer) + len(sc.Applier) + len(sc.Closer)
+				for _, c := range sc.Clients {
+					n += len(c)
 				}
+				return sc.threads()*100 + n
+			}
+			sort.SliceStable(order, func(a, b int) bool { return size(&scs[order[a]]) < size(&scs[order[b]]) })
+		}
+		done := 0
+		for _, si := range order {
+			sc := &scs[si]
+			if f := os.Getenv("VERIF_SCENARIO"); f != "" && !strings.Contains(sc.Name, f) {
+				continue
+			}
+			if run.Expired() {
+				res.Cap(fmt.Sprintf("deadline reached in the pass with bound %d after %d of %d scenarios (every scenario is complete for bound %d)", pb, done, len(scs), passes[0]))
+				if pi == 0 {
+					res.Cap("deadline reached in the first pass")
+				}
+				break
+			}
+			var w *c12sWorld
+			if os.Getenv("VERIF_DEBUG") != "" {
+				fmt.Fprintln(os.Stderr, "scenario", si, sc.Name)
+			}
+			salt := verifkit.Hash64(sc.Name)
+			skipBelow := 0
+			if pi > 0 {
+				skipBelow = passes[0] + 1
+			}
+			func() {
+				defer func() {
+					if rec := recover(); rec != nil {
+						panic(fmt.Sprintf("scenario %q: %v", sc.Name, rec))
+					}
+				}()
+				c12sExploreOne(run, res, sc, salt, pb, skipBelow, &w, outcomes, minimal, &tot)
 			}()
-			c12sExploreOne(run, res, sc, salt, bound, &w, outcomes, minimal, &tot)
-		}()
+			if !run.Expired() {
+				done++
+			}
+		}
+		if pi > 0 {
+			res.Extra["max_scenarios_complete_at_bound_3"] = done
+		}
 	}
 	c12sReport(run, res, scs, &tot, bound)
 }
 
-func c12sExploreOne(run *verifkit.Run, res *verifkit.Result, sc *c12sScenario, salt uint64, bound int, wp **c12sWorld,
+func c12sExploreOne(run *verifkit.Run, res *verifkit.Result, sc *c12sScenario, salt uint64, bound int, skipBelow int, wp **c12sWorld,
 	outcomes map[string]struct{}, minimal map[string]int, tot *vsched.Stats) {
 	var w *c12sWorld
 	{
@@ -1221,6 +1265,9 @@ func c12sExploreOne(run *verifkit.Run, res *verifkit.Result, sc *c12sScenario, s
 			Expired: run.Expired,
 			Observe: func(o *vsched.Outcome) string { return w.observation(o) },
 		}, c12sSetup(sc, &w), func(o *vsched.Outcome) bool {
+			if o.Preemptions < skipBelow {
+				return false // judged in the first pass
+			}
 			finds, classes := w.judge(o)
 			sort.Strings(classes)
 			oc := strings.Join(classes, " ")
@@ -1240,6 +1287,18 @@ func c12sExploreOne(run *verifkit.Run, res *verifkit.Result, sc *c12sScenario, s
 			}
 			return false
 		})
+		if skipBelow > 0 {
+			// second pass: only the schedules with more preemptions are new
+			var n int64
+			for i := skipBelow; i < len(st.ByPreempt); i++ {
+				n += st.ByPreempt[i]
+			}
+			for i := 0; i < skipBelow; i++ {
+				st.ByPreempt[i] = 0
+			}
+			st.Schedules -= st.Executions - n
+			st.Executions = n
+		}
 		tot.Executions += st.Executions
 		tot.Schedules += st.Schedules
 		tot.Spine += st.Spine
@@ -1256,7 +1315,7 @@ func c12sExploreOne(run *verifkit.Run, res *verifkit.Result, sc *c12sScenario, s
 			tot.ByPreempt[i] += st.ByPreempt[i]
 		}
 		if st.Capped {
-			res.Cap("deadline reached inside scenario " + sc.Name)
+			res.Cap(fmt.Sprintf("deadline reached inside scenario %s (bound %d)", sc.Name, bound))
 		}
 		if run.Shard == 0 {
 			res.Sample(3, map[string]interface{}{"scenario": sc.Name, "schedules_this_shard": st.Executions, "max_points": st.MaxPoints})
